@@ -244,8 +244,15 @@ def ann_entry(a, owner, depth=0):
         sub = [ann_entry(x, a, depth + 1) for x in list(getattr(s2, "_item_list", []))]
         for x in sub:
             x.pop("_own", None)
-    meta = _crc("|".join(_s(d.get(k)) for k in ("_name_prefix", "_namespace", "datatype_hint", "annotate_as_reference",
-                                                "is_hidden", "real_value_format_specifier")))
+    # everything else the annotation holds - every constructor option (name prefix, namespace, datatype hint,
+    # annotate_as_reference, is_hidden, real_value_format_specifier) and any attribute set on it later -
+    # by value: the whole __dict__ minus the fields rendered above and the owner links
+    rest = []
+    for k in sorted(d):
+        if k in ("name", "_value", "is_attribute", "_annotations"):
+            continue
+        rest.append(str(k) + "=" + _s_any(d[k]))
+    meta = _crc("|".join(rest))
     return {"name": _s(d.get("name")), "bound": bound, "attr": attr, "val": via_ann, "meta": meta, "sub": sub,
             "_own": via_owner}
 
